@@ -864,6 +864,12 @@ func resizeAttached() {
 	s, err := c()
 	must(err, "NewSocket")
 	ep := vt.Get("c08rs")
+	// frames arrive in pooled messages or (as over ws) in the transport's own buffer; bodies short or of 200 bytes
+	ep.Wrap = kit.ChooseFree(2) == 1
+	pad := ""
+	if ep.Wrap {
+		pad = strings.Repeat("-", 186)
+	}
 	must(s.Listen("vt://c08rs"), "Listen")
 	pipes := []*vt.Pipe{ep.Connect(), ep.Connect()}
 	kit.Quiesce()
@@ -872,7 +878,7 @@ func resizeAttached() {
 	}
 	want := map[string]int{}
 	for i, p := range pipes {
-		body := fmt.Sprintf("after-resize-%d", i)
+		body := fmt.Sprintf("after-resize-%d", i) + pad
 		want[body] = 0
 		if isStar {
 			p.Deliver(append([]byte{0, 0, 0, 1}, body...))
@@ -898,7 +904,7 @@ func resizeAttached() {
 		}
 		if isStar {
 			l := p.SentLog()
-			other := fmt.Sprintf("after-resize-%d", 1-i)
+			other := fmt.Sprintf("after-resize-%d", 1-i) + pad
 			if len(l) != 1 || string(l[0].Data[4:]) != other {
 				kit.Failf("not-forwarded-after-resize:"+name, "%s: peer %d was passed %d message(s), want exactly the other peer's", name, i, len(l))
 			}
